@@ -370,7 +370,9 @@ C_UP = (_cc // 32) % 2 == 1
 
 
 def int_cases(maxd: int) -> list[int]:
-    return [b + 4 * n + 16 * s + 32 * u for b in range(4) for n in range(1, maxd + 1) for s in (0, 1) for u in (0, 1)]
+    """3-digit numerals only in base 2 (the values are enumerated by the solver: 8^3 / 16^3 numerals per slice is too many)"""
+    return [b + 4 * n + 16 * s + 32 * u for b in range(4) for n in range(1, maxd + 1) for s in (0, 1) for u in (0, 1)
+            if n <= 2 or b == 3]
 
 
 def h_int(d0: int, d1: int, d2: int) -> bool:
@@ -543,9 +545,9 @@ OBLIGATIONS += [
     {"id": "C04.S4a", "module": __name__, "func": "h_spec_multi",
      "what": "spec direction: multiline_string_literal == independent implementation of the three dedent rules of "
              "language_spec.rst, both quote styles",
-     "cases": {"quick": [8 * n for n in range(0, 5)], "thorough": [8 * n for n in range(0, 7)]},
+     "cases": {"quick": [8 * n for n in range(0, 5)], "thorough": [8 * n for n in range(0, 6)]},
      "timeout": {"quick": 240, "thorough": 2400},
-     "bounds": {"quick": "literal bodies of length <=4 over {space,a,LF,backslash,quote}", "thorough": "length <=6"},
+     "bounds": {"quick": "literal bodies of length <=4 over {space,a,LF,backslash,quote}", "thorough": "length <=5"},
      "encodes": ["explorerscript.ssb_converting.compiler.utils.multiline_string_literal"],
      "known": ["C04-reader-blank-line-before-closing-delimiter"]},
     {"id": "C04.S4b", "module": __name__, "func": "h_spec_single",
@@ -577,7 +579,7 @@ OBLIGATIONS += [
      "cases": {"quick": int_cases(2), "thorough": int_cases(3)},
      "timeout": {"quick": 240, "thorough": 1200},
      "bounds": {"quick": "1-2 digits per numeral (values enumerated by the solver: int(s, 0) is realised)",
-                "thorough": "1-3 digits"},
+                "thorough": "1-2 digits in every base, 3 digits in base 2"},
      "encodes": ["explorerscript.util.exps_int"]},
     {"id": "C04.S6a", "module": __name__, "func": "h_posmark",
      "what": "position mark printed by __str__ and read back through the grammar shape + the real "
